@@ -3,6 +3,9 @@ CONSTANTS
   Design = "grader_bookkeeping"
   Kind = "finisher"
   MaxSteps = 2
+  Inject = "base"
+  Handback = "per_run"
+  NextRun = "plain"
   defaultInitValue = defaultInitValue
 INVARIANT QuietReachable
 CHECK_DEADLOCK FALSE
